@@ -20,7 +20,7 @@ import z3
 from lib import codec as C
 from lib.codec import asn1tools
 from lib import cgen
-from lib.cgen import Mapper, MappingError
+from lib.cgen import Mapper
 from lib.common import Compiled
 from lib.symvalue import Bounds, concretize, jsonable
 import cfront
@@ -40,13 +40,13 @@ F64 = 'REAL (WITH COMPONENTS { mantissa (-9007199254740991..9007199254740991), b
 OER_ONLY = [
     dict(id='real', quick=True, text=M('A ::= SEQUENCE { a %s, b %s OPTIONAL, c SEQUENCE (SIZE(1..2)) OF %s }'
                                       % (F32, F64, F32))),
-    dict(id='additions', quick=True, text=M(
+    dict(id='additions', quick=True, nbytes_cap=5, text=M(
         'A ::= SEQUENCE { a BOOLEAN, b INTEGER (0..7) OPTIONAL, ..., c INTEGER (0..300), '
         'd OCTET STRING (SIZE(0..2)), e ENUMERATED { p(-1), q(200), r(70000) }, f BOOLEAN OPTIONAL }')),
-    dict(id='additions-nested', quick=False, text=M(
+    dict(id='additions-nested', quick=True, nbytes_cap=5, text=M(
         'A ::= SEQUENCE { a BOOLEAN, ..., n N, m INTEGER (0..7), o CHOICE { x BOOLEAN, y INTEGER (0..300) }, '
         'l SEQUENCE (SIZE(0..2)) OF INTEGER (0..255) }\nN ::= SEQUENCE { u INTEGER (0..7), ..., w BOOLEAN }')),
-    dict(id='additions-9', quick=False, text=M(
+    dict(id='additions-9', quick=False, nbytes_cap=5, text=M(
         'A ::= SEQUENCE { a BOOLEAN, ..., b1 BOOLEAN, b2 BOOLEAN, b3 BOOLEAN, b4 BOOLEAN, b5 BOOLEAN, '
         'b6 BOOLEAN, b7 BOOLEAN, b8 BOOLEAN, b9 INTEGER (0..255) }')),
     dict(id='enum-oer', quick=True, text=M(
